@@ -810,9 +810,11 @@ class TestSuite(tsdb.Database):
                 data: tsdb.Records = []
                 # a compressed file cannot be appended to, so it is
                 # rewritten (and stays compressed)
-                gzip = tsdb.get_path(self.path, name).suffix == '.gz'
+                path = tsdb.get_path(self.path, name)
+                gzip = path.suffix == '.gz'
                 if (table._volatile_index >= table._persistent_count
-                        and not gzip):
+                        and not gzip
+                        and _ends_with_newline(path)):
                     append = True
                     data = table[table._persistent_count:]
                 else:
@@ -928,6 +930,16 @@ class TestSuite(tsdb.Database):
         # everything is on disk now, so the tables no longer have
         # uncommitted rows (otherwise a later commit writes them again)
         self.reload()
+
+
+def _ends_with_newline(path: Path) -> bool:
+    """Return `True` if the file is empty or its last byte is a newline."""
+    with path.open('rb') as f:
+        f.seek(0, 2)
+        if f.tell() == 0:
+            return True
+        f.seek(-1, 2)
+        return f.read(1) == b'\n'
 
 
 def _add_row(ts: TestSuite,
